@@ -980,7 +980,7 @@ func ruleMapOrder(c *Ctx) {
 				continue
 			}
 			args := ci.Common().Args
-			cmpf := unbound(funcOfValue(args[len(args)-1]))
+			cmpf := unthunk(unbound(funcOfValue(args[len(args)-1])))
 			if cmpf == nil || !c.isRepoFunc(cmpf) || len(cmpf.Params) != 2 {
 				continue
 			}
